@@ -31,6 +31,9 @@ def main():
             res = list(ex.map(run, checks))
     finally:
         subprocess.run(["git", "-C", "/repo", "checkout", "--", "."])
+        # the checks regenerated lean/EventppVerif/Generated from the changed tree: put the fragments of the clean tree back
+        subprocess.run([sys.executable, "-c", "import translate; translate.regenerate(list(translate.FRAGMENTS))"],
+                       cwd=os.path.join(ROOT, "tools"))
     caught = []
     for c, rc, v in res:
         kind = "-"
